@@ -174,3 +174,146 @@ def fmt_norm(e):
     if isinstance(e, (ast.Name, ast.Attribute, ast.Call, ast.Subscript)):
         return "{}", [canon(e)]
     return None
+
+
+# ---------------------------------------------------------------- ownership of returned buffers
+
+FRESH_CALLS = {"bytearray", "bytes", "list", "dict", "set", "tuple", "struct.pack", "array.array", "array",
+               "str", "int", "len", "sorted", "bytes.fromhex", "bytearray.fromhex", "copy.copy", "copy.deepcopy"}
+FRESH_METHODS = {"copy", "join", "encode", "decode", "to_bytes", "tobytes", "hex", "format", "pack"}
+
+
+def return_origins(repo, ci, func, depth=0, _seen=None):
+    """Ownership of what `func` (a method of ci, or a module function when ci is None) returns.
+    Yields (kind, node, text): kind in
+       'fresh'   the value is created during the call (constructor, display, concatenation, slice copy, immutable
+                 constant) - the caller owns it
+       'shared'  the value is (an alias of) storage that outlives the call: an instance/class/module attribute or a
+                 module-level name
+       'param'   the value is one of the arguments
+       'unknown' not classifiable (caller decides: no verdict)"""
+    _seen = _seen if _seen is not None else set()
+    key = (id(func),)
+    if key in _seen or depth > 4:
+        yield ("unknown", func, "recursion/depth")
+        return
+    _seen = _seen | {key}
+    pnames = set(params(func))
+    if func.args.vararg:
+        pnames.add(func.args.vararg.arg)
+    if func.args.kwarg:
+        pnames.add(func.args.kwarg.arg)
+    pnames |= {a.arg for a in func.args.kwonlyargs}
+    assigned = {}
+    for n in ast.walk(func):
+        if isinstance(n, (ast.FunctionDef, ast.Lambda)) and n is not func:
+            continue
+        if isinstance(n, ast.Assign):
+            for t in n.targets:
+                if isinstance(t, ast.Name):
+                    assigned.setdefault(t.id, []).append(n.value)
+                elif isinstance(t, (ast.Tuple, ast.List)):
+                    for e in t.elts:
+                        if isinstance(e, ast.Name):
+                            assigned.setdefault(e.id, []).append(None)     # element of an unpacked value
+        elif isinstance(n, ast.AnnAssign) and isinstance(n.target, ast.Name) and n.value is not None:
+            assigned.setdefault(n.target.id, []).append(n.value)
+        elif isinstance(n, (ast.For, ast.comprehension)) and isinstance(n.target, ast.Name):
+            assigned.setdefault(n.target.id, []).append(None)
+        elif isinstance(n, ast.With):
+            for it in n.items:
+                if isinstance(it.optional_vars, ast.Name):
+                    assigned.setdefault(it.optional_vars.id, []).append(None)
+
+    def origin(e, stack):
+        if e is None:
+            yield ("unknown", func, "unpacked/loop value")
+            return
+        if isinstance(e, (ast.Constant, ast.JoinedStr, ast.Compare)):
+            yield ("fresh", e, canon(e))
+            return
+        if isinstance(e, ast.BoolOp):
+            for v in e.values:
+                for r in origin(v, stack):
+                    yield r
+            return
+        if isinstance(e, (ast.List, ast.Tuple, ast.Dict, ast.Set, ast.ListComp, ast.DictComp, ast.SetComp,
+                          ast.GeneratorExp, ast.BinOp, ast.UnaryOp)):
+            yield ("fresh", e, canon(e))
+            return
+        if isinstance(e, ast.IfExp):
+            for b in (e.body, e.orelse):
+                for r in origin(b, stack):
+                    yield r
+            return
+        if isinstance(e, ast.Subscript):
+            if isinstance(e.slice, ast.Slice):
+                # slicing bytes/bytearray/list/tuple/str copies (a memoryview slice would not: classify by base)
+                base = e.value
+                if isinstance(base, ast.Call) and canon(base.func) == "memoryview":
+                    yield ("unknown", e, canon(e))
+                else:
+                    yield ("fresh", e, canon(e))
+            else:
+                yield ("unknown", e, canon(e))
+            return
+        if isinstance(e, ast.Name):
+            if e.id in stack:
+                return
+            if e.id in assigned:
+                for v in assigned[e.id]:
+                    for r in origin(v, stack | {e.id}):
+                        yield r
+                if e.id in pnames:
+                    yield ("param", e, e.id)
+                return
+            if e.id in pnames:
+                yield ("param", e, e.id)
+                return
+            if e.id in ("None", "True", "False"):
+                yield ("fresh", e, e.id)
+                return
+            yield ("shared", e, "module-level name %s" % e.id)
+            return
+        if isinstance(e, ast.Attribute):
+            yield ("shared", e, "attribute %s" % canon(e))
+            return
+        if isinstance(e, ast.Call):
+            fn = canon(e.func)
+            if fn in FRESH_CALLS:
+                yield ("fresh", e, canon(e)[:60])
+                return
+            if isinstance(e.func, ast.Attribute) and e.func.attr in FRESH_METHODS:
+                yield ("fresh", e, canon(e)[:60])
+                return
+            # a method of the same class / a module function: follow its returns
+            tgt = None
+            if isinstance(e.func, ast.Attribute) and isinstance(e.func.value, ast.Name) \
+                    and e.func.value.id in ("self", "cls") and ci is not None:
+                c2, m2 = repo.find_method(ci, e.func.attr)
+                if m2 is not None:
+                    tgt = (c2, m2)
+            elif isinstance(e.func, ast.Name) and ci is not None:
+                r = repo.lookup(ci.mod, e.func.id)
+                if r is not None and r[0] == "func":
+                    tgt = (None, r[1])
+            if tgt is not None:
+                for r in return_origins(repo, tgt[0] or ci, tgt[1], depth + 1, _seen):
+                    r = r[:3]
+                    if r[0] == "param":
+                        yield ("unknown", e, "returns an argument of %s" % fn)
+                    else:
+                        yield r
+                return
+            yield ("unknown", e, canon(e)[:60])
+            return
+        yield ("unknown", e, canon(e)[:60])
+
+    nret = 0
+    for n in ast.walk(func):
+        if isinstance(n, ast.Return) and n.value is not None:
+            nret += 1
+            for r in origin(n.value, frozenset()):
+                yield r + (n,)
+    if nret == 0:
+        yield ("fresh", func, "no value returned", func)
